@@ -482,6 +482,9 @@ func (fv *FV) globalVar(e *Env, v *types.Var) Value {
 	k, s := sortOf(t)
 	switch t.Underlying().(type) {
 	case *types.Interface, *types.Pointer, *types.Signature:
+		if t := fv.eng.sentinelAlias(v); t != nil && fv.eng.isSentinel(t) {
+			return fv.globalVar(e, t) // ErrX = otherpkg.ErrX: the same error object
+		}
 		c := fv.s.declConst(name, s)
 		if !fv.globalSeen[name] {
 			fv.globalSeen[name] = true
@@ -581,6 +584,11 @@ func (fv *FV) expr(e *Env, x ast.Expr) Value {
 	case *ast.FuncLit:
 		r := fv.allocRef(e, "closure")
 		fv.closures[r.S] = x
+		if fv.spec == nil && fv.u != nil && fv.u.C != nil && len(fv.u.C.ClosureAccepts) > 0 {
+			if cl := fv.u.C.ClosureAccepts[funcLitOrd(fv.u.Decl, x)]; cl != nil {
+				fv.probeClosure(e, x, cl, r)
+			}
+		}
 		return Value{K: kScalar, T: r, Type: fv.typeOf(x)}
 	case *ast.KeyValueExpr:
 		return fv.expr(e, x.Value)
